@@ -82,6 +82,11 @@ def _gen_vals(rng, T, heavy=False):
 def _gl(rng, i):
     g = [0.0, 1.0, 0.99, float(rng.uniform(0, 1))][i % 4]
     lam = [1.0, 0.0, 0.95, float(rng.uniform(0, 1))][(i // 4) % 4]
+    # the corners are also given as whole numbers (gamma=1 is how "no discounting" is usually written)
+    if i % 3 == 2 and g in (0.0, 1.0):
+        g = [int(g), np.int64(int(g)), bool(g)][(i // 3) % 3]
+    if i % 5 == 4 and lam in (0.0, 1.0):
+        lam = int(lam)
     return g, lam
 
 
@@ -235,11 +240,13 @@ def u_algo(ctx):
             env, _ = _mdp_env(ctx, i, tl=tl)
             cls = [PPO, A2C, REINFORCE][i % 3]
             T = int(ctx.rng.integers(4, 24))
-            kw = dict(num_envs=1, num_steps=T, gamma=float(ctx.rng.uniform(0.8, 1.0)))
+            kw = dict(num_envs=1, num_steps=T, gamma=[float(ctx.rng.uniform(0.8, 1.0)), 1.0, 1, 0.9][(i // 3) % 4])
+            lam_i = [float(ctx.rng.uniform(0, 1)), 0.0, 1.0, 0, float(ctx.rng.uniform(0, 1)), 0.95][(i // 3) % 6]
             if cls is PPO:
-                kw.update(num_batches=1, num_epochs=1, gae_lambda=float(ctx.rng.uniform(0, 1)))
+                kw.update(num_batches=1, num_epochs=1, gae_lambda=lam_i)
             elif cls is A2C:
-                kw.update(gae_lambda=float(ctx.rng.uniform(0, 1)))
+                kw.update(gae_lambda=lam_i)
+            ctx.monitor(f"algo_rollouts_lambda_{'zero' if lam_i == 0 else 'one' if lam_i == 1 else 'fractional'}" if cls is not REINFORCE else "algo_rollouts_reinforce")
             algo = cls(**kw)
             if i % 2 == 1:
                 # stateful policy whose value depends on its internal step counter: a bootstrap value
